@@ -943,6 +943,25 @@ theorem apiResolve_inv {p : Pair} {x : Side} {nm : Bytes} {r : Pair × Py Out} (
   repeat' split at h
   all_goals first | (cases h; done) | (cases h; exact hp.same s1)
 
+theorem apiResolveMany_same {p : Pair} {x : Side} {nms : List Bytes} {r : Pair × Py Out}
+    (h : apiResolveMany p x nms = .ok r) : PSame p r.1 := by
+  unfold apiResolveMany at h
+  simp only at h
+  split at h
+  · cases h
+  · simp only [Py.bind_eq_ok] at h
+    obtain ⟨p1, hpump, h⟩ := h
+    have s1 : PSame p p1 := by
+      split at hpump
+      · cases hpump; exact .refl _
+      · exact (psame_set _ _ _ (same_sd _ _)).trans (pump_same _ hpump)
+    split at h
+    · cases h; exact s1
+    · cases h
+
+theorem apiResolveMany_inv {p : Pair} {x : Side} {nms : List Bytes} {r : Pair × Py Out} (hp : PInv p)
+    (h : apiResolveMany p x nms = .ok r) : PInv r.1 := hp.same (apiResolveMany_same h)
+
 theorem sockClose_same {p p' : Pair} {x : Side} {id : Nat} (h : sockClose p x id = .ok p') : PSame p p' := by
   unfold sockClose at h
   simp only at h
@@ -1001,6 +1020,8 @@ theorem applyOp_inv {p : Pair} {op : Op} {r : Pair × Py Out} (hp : PInv p) (hw 
     obtain ⟨r1, hx, h⟩ := h
     cases h
     exact hp.same (xfer_same (p' := r1.1) (m := r1.2) hx)
+  | resolveMany x nms => exact apiResolveMany_inv hp h
+  | sendsnl x id rq rs => exact apiSendPdu_inv hp ((by have := hw; simp only [Op.wf, Op.sock?, Op.side] at this; exact of_decide_eq_true this)) h
 
 theorem apply_inv {p : Pair} {op : Op} {r : Pair × Py Out} (hp : PInv p) (h : apply p op = .ok r) : PInv r.1 := by
   unfold apply at h
